@@ -358,6 +358,44 @@ pub fn check_trait<S: Oversize>(c: &Case, ctx: &mut CaseCtx) -> Result<(), Failu
                 let o = sess.batch_check(sess.verifier_comms(), &qs, &ev, &bp, &mut sess.sponge(), sel);
                 ctx.check(!accepted(&o), sig(P, S::NAME, "batch_check", "missing_evaluation_accepted"), || o.describe())?;
             }
+            // the same for combination openings: one single-term combination per unbounded polynomial, queried
+            // where the polynomial is queried; one claimed combination value is withheld from the verifier
+            {
+                use ark_poly_commit::{LCTerm, LinearCombination};
+                let free: Vec<usize> = (0..sess.n()).filter(|i| sess.meta[*i].bound.is_none()).collect();
+                let mut lcs = Vec::new();
+                for i in &free {
+                    lcs.push(LinearCombination::new(format!("lc{i}"), vec![(S::F::from(2u64), LCTerm::PolyLabel(sess.polys[*i].label().clone()))]));
+                }
+                let mut lqs = std::collections::BTreeSet::new();
+                let mut lev = std::collections::BTreeMap::new();
+                for g in &sess.groups {
+                    for i in g.polys.iter().filter(|i| free.contains(i)) {
+                        lqs.insert((format!("lc{i}"), (g.label.clone(), g.point.clone())));
+                        lev.insert((format!("lc{i}"), g.point.clone()), S::F::from(2u64) * sess.true_value(*i, &g.point));
+                    }
+                }
+                if !lqs.is_empty() {
+                    let ps: Vec<_> = sess.perm_p.iter().map(|i| &sess.polys[*i]).collect();
+                    let cs: Vec<_> = sess.perm_p.iter().map(|i| &sess.comms[*i]).collect();
+                    let ss: Vec<_> = sess.perm_p.iter().map(|i| &sess.states[*i]).collect();
+                    let mut r = rng(sel);
+                    let mut sp = sess.sponge();
+                    if let Out::Ok(lp) = guard(|| S::PC::open_combinations(&keys.ck, &lcs, ps, cs, &lqs, &mut sp, ss, Some(&mut r))) {
+                        let mut r2 = rng(sel ^ 9);
+                        let honest = guard(|| S::PC::check_combinations(&keys.vk, &lcs, sess.verifier_comms(), &lqs, &lev, &lp, &mut sess.sponge(), &mut r2));
+                        if accepted(&honest) {
+                            let k = lev.keys().nth(((sel >> 8) % lev.len() as u64) as usize).cloned().unwrap();
+                            let mut lev2 = lev.clone();
+                            lev2.remove(&k);
+                            ctx.label("missing_combination_evaluation");
+                            let mut r3 = rng(sel ^ 9);
+                            let o = guard(|| S::PC::check_combinations(&keys.vk, &lcs, sess.verifier_comms(), &lqs, &lev2, &lp, &mut sess.sponge(), &mut r3));
+                            ctx.check(!accepted(&o), sig(P, S::NAME, "check_combinations", "missing_evaluation_accepted"), || format!("the claimed value of {} was withheld: {}", k.0, o.describe()))?;
+                        }
+                    }
+                }
+            }
             Ok(())
         }
         8 => {
@@ -649,7 +687,7 @@ pub fn spec() -> PropertySpec {
     ));
     PropertySpec {
         id: "C17",
-        rule: "Request kinds x magnitudes around the boundary (supported+1, max+1, 2max+1, supported+2; key variables +1/+2/-2; hiding 0 and beyond the supported hiding bound) inside otherwise valid generated scenarios: a polynomial larger than the key (degree / total degree / number of variables) handed to commit and to open; hiding bound 0, hiding bound beyond the key, hiding without an RNG; points with too few / too many coordinates handed to open and to check; a query for a polynomial that was not supplied, a commitment or an evaluation missing on the verifier side; mismatched labels between polynomial and commitment; trim beyond the parameters; a commitment presented to check / batch_check under a degree bound outside the enforced set (preferably just below the bound it was made for); an unsupported or inconsistent degree bound handed to commit (beyond supported / beyond max / not enforced / below the polynomial's degree) and to trim (an enforced-bound list containing, at any position and possibly twice, a bound above the supported degree for SonicKZG10 / above the maximum degree for MarlinKZG10, which by design serves bounds up to max_degree - there the committer must still refuse degrees above the supported degree); setup with degree 0, zero / missing / odd variables; the same for KZG10 and multilinear PST through their inherent APIs. Oracle: the entry point returns Err or aborts - never a commitment, proof or Ok(true). Where a scheme defines the request instead of refusing it (a longer point whose extra coordinates are ignored, an open that does not look at labels) the check demands that whatever is served is sound: no value the polynomial does not take verifies. In-domain requests never aborting is C01's oracle. Non-trivial: magnitude exactly one past the boundary.",
+        rule: "Request kinds x magnitudes around the boundary (supported+1, max+1, 2max+1, supported+2; key variables +1/+2/-2; hiding 0 and beyond the supported hiding bound) inside otherwise valid generated scenarios: a polynomial larger than the key (degree / total degree / number of variables) handed to commit and to open; hiding bound 0, hiding bound beyond the key, hiding without an RNG; points with too few / too many coordinates handed to open and to check; a query for a polynomial that was not supplied, a commitment or an evaluation missing on the verifier side (batch_check, and check_combinations with a withheld combination value; a queried combination the verifier was not given is skipped by the default implementation - the crate's own equation tests rely on that - and is not asserted); mismatched labels between polynomial and commitment; trim beyond the parameters; a commitment presented to check / batch_check under a degree bound outside the enforced set (preferably just below the bound it was made for); an unsupported or inconsistent degree bound handed to commit (beyond supported / beyond max / not enforced / below the polynomial's degree) and to trim (an enforced-bound list containing, at any position and possibly twice, a bound above the supported degree for SonicKZG10 / above the maximum degree for MarlinKZG10, which by design serves bounds up to max_degree - there the committer must still refuse degrees above the supported degree); setup with degree 0, zero / missing / odd variables; the same for KZG10 and multilinear PST through their inherent APIs. Oracle: the entry point returns Err or aborts - never a commitment, proof or Ok(true). Where a scheme defines the request instead of refusing it (a longer point whose extra coordinates are ignored, an open that does not look at labels) the check demands that whatever is served is sound: no value the polynomial does not take verifies. In-domain requests never aborting is C01's oracle. Non-trivial: magnitude exactly one past the boundary.",
         assumptions: vec![
             "IPA treats any hiding bound (including 0) as 'hiding' and Ligero parameters do not bound the polynomial size: not out of domain for those schemes",
             "multilinear Ligero / Brakedown verifiers read a point positionally (tensor vectors, inner products that stop at the shorter operand) and the commitment does not record the number of variables: a point lacking its last coordinate is read as if that coordinate were 0, accepting the polynomial's value at the zero-padded point is treated as scheme-defined, any other accepted value is a violation; a point with a surplus coordinate is refused by the prover and verifies only for the zero polynomial (every inner product vanishes), which is allowed for explicitly - for any other polynomial it is a violation",
